@@ -251,8 +251,10 @@ class Generator(AbstractODSGenerator):
             transaction_month=transaction.timestamp.month,
             transaction_day=transaction.timestamp.day,
             transaction_client=_(self.TRANSFER),
+            # Both cells are decided by the crypto fee: a non-zero fee whose yen value rounds to zero used to leave the
+            # yen cell empty (None) next to a filled crypto cell, which the ODS writer rejects
             sales_crypto_amount=transaction_fee_in_crypto if transaction_fee_in_crypto > ZERO else None,
-            sales_amount_in_yen=transaction_fee_in_yen if transaction_fee_in_yen > ZERO else None,
+            sales_amount_in_yen=transaction_fee_in_yen if transaction_fee_in_crypto > ZERO else None,
             fee_in_yen=ZERO,
             gift=ZERO,
         )
